@@ -15,6 +15,8 @@ import Chiritori.Lemmas.Decision
   * evaluators are looked up by the configured tag name: `rename_invariant` - renaming both configured names and
     every element name by an injective map preserves the readiness of every element (`conditionHolds`), the
     skip test and the strategy choice.
+  End to end, byte for byte (Props/C18Exact.lean, `respell_exact`): for documents without `unwrap-block`, one piece
+  list under two delimiter pairs is cleaned to one and the same piece list under the respective pair.
   End to end (Props/C18End.lean, `respell_default`): for default-strategy removals the same piece list under two
   delimiter pairs is cleaned to the same piece list under the respective pair, tags identical and texts equal up to
   whitespace.  Not proved: exact equality of the whitespace across a change of delimiters, unwrap-blocks, renamed
